@@ -219,6 +219,30 @@ func bigOperands(t universe.Affine) []Operand {
 		}
 	}
 	out = append(out, mkOp(geom.NewMultiPolygon(sq).AsGeometry(), "big"))
+	// rings with many vertices: a digitised disc (20 vertices, every slope from the octant),
+	// a spiral corridor (16 vertices, deeply non-convex), a staircase (26 vertices, 12 collinear-free
+	// steps), and a plate with a 3×2 grid of holes (7 rings)
+	disc := []universe.LPt{{2, 0}, {4, 0}, {5, 1}, {6, 2}, {6, 4}, {5, 5}, {4, 6}, {2, 6}, {1, 5}, {0, 4}, {0, 2}, {1, 1}, {2, 0}}
+	spiral := []universe.LPt{{0, 0}, {7, 0}, {7, 7}, {0, 7}, {0, 2}, {5, 2}, {5, 5}, {2, 5}, {2, 4}, {4, 4}, {4, 3}, {1, 3}, {1, 6}, {6, 6}, {6, 1}, {0, 1}, {0, 0}}
+	var stair []universe.LPt
+	for i := 0; i <= 6; i++ {
+		stair = append(stair, universe.LPt{X: i, Y: i}, universe.LPt{X: i + 1, Y: i})
+	}
+	stair = append(stair, universe.LPt{X: 7, Y: 7}, universe.LPt{X: 0, Y: 7}, universe.LPt{X: 0, Y: 0})
+	plate := [][]universe.LPt{{{0, 0}, {7, 0}, {7, 5}, {0, 5}, {0, 0}}}
+	for i := 0; i < 3; i++ {
+		for j := 0; j < 2; j++ {
+			x, y := 1+2*i, 1+2*j
+			plate = append(plate, []universe.LPt{{x, y}, {x, y + 1}, {x + 1, y + 1}, {x + 1, y}, {x, y}})
+		}
+	}
+	for _, rings := range [][][]universe.LPt{{disc}, {spiral}, {stair}, plate} {
+		if g := t.Polygon(rings...).AsGeometry(); g.Validate() == nil {
+			out = append(out, mkOp(g, "big"))
+		} else {
+			panic("bigOperands: invalid family member " + g.AsText())
+		}
+	}
 	return out
 }
 
